@@ -17,6 +17,11 @@ pub fn mk(s: f64) -> CgrComputer {
     }
 }
 
+/// public window onto the private vectorise_one (used by the C13 differential)
+pub fn vec_one(cc: &CgrComputer, seq: &[u8]) -> Result<Vec<(f64, f64)>, String> {
+    cc.vectorise_one(seq)
+}
+
 /// corner of a base, from the property text; None for any other byte
 pub fn corner(b: u8, s: f64) -> Option<(f64, f64)> {
     match b {
